@@ -137,6 +137,14 @@ CHECKS['C17'] = dict(
          'equal the reference closure as a set, list nothing twice, and finish within 10x the reference closure size in rule applications (counted through a proxy rule object). Exploration.',
     note='Trusted: RDKit ChemicalReaction for SMARTS rules, AddHs; networkx WL hash for species identity. Radicals are the valence deficit; charged species out of domain.',
     ref='DESIGN.md C17')
+CHECKS['C15'] = dict(
+    technique='Hypothesis RuleBasedStateMachine over load / decompose / estimate / evaluate / merge histories; reference model = answers of fresh interpreter processes; fingerprint invariant over all live library objects',
+    text='Per shard, 3 libraries x 6 molecules get their single-operation answers (descriptors, estimate outcome, every property on a grid with and without the elemental reference, library fingerprint) from fresh '
+         'processes; a state machine then interleaves loads, decompositions, estimates from ANY earlier decomposition, evaluations, same-library merges and overwriting cross-library merges on up to 6 objects and '
+         'compares each value with the table (descriptors exact, numbers 1e-12); every live, un-mixed library object must keep its fingerprint. Exploration; the elemental reference of an estimate made after a later '
+         'decomposition is a known finding.',
+    note='Trusted: fresh processes of the same working tree as the reference. The target of an overwriting cross-library merge is excluded from comparison afterwards.',
+    ref='DESIGN.md C15')
 NOT_YET = {}
 
 def main():
